@@ -24,6 +24,8 @@ TEMPLATES = {
     "dacapo_fine_slur": dict(sections="AB", marks=[("fine", "A"), ("dacapo", "B")], maximal="ABA", minimal=None, n_variants=None, slur=True),
     "repeat_mid": dict(sections="ABC", marks=[("repeat", "B", "B")], maximal="ABBC", minimal="ABC", n_variants=2),
     "repeat_start": dict(sections="AB", marks=[("repeat", "A", "A")], maximal="AAB", minimal="AB", n_variants=2),
+    "nested": dict(sections="ABCD", marks=[("repeat", "A", "C"), ("repeat", "B", "B")], maximal="ABBCABBCD", minimal="ABCD", n_variants=None),
+    "repeat_mid_inner": dict(sections="ABC", marks=[("repeat", "B", "B")], maximal="ABBC", minimal="ABC", n_variants=2, inner="B"),
     "two_repeats": dict(sections="ABCD", marks=[("repeat", "A", "A"), ("repeat", "C", "C")], maximal="AABCCD", minimal="ABCD", n_variants=4),
     "volta": dict(sections="ABC", marks=[("repeat", "A", "B"), ("ending", "1", "B"), ("ending", "2", "C")],
                   maximal="ABAC", minimal="AC", n_variants=None),
@@ -48,7 +50,15 @@ def build(template, L, q=4):
         bounds[name] = (start, end)
         part.add(S.Measure(number=i + 1), start, end)
         n = S.Note("CDEFGAB"[i], 4, id="n" + name, voice=1, staff=1)
-        part.add(n, start, end)
+        if name in t.get("inner", ""):
+            # two tied notes and a grace note inside the section (references that must stay inside each visit)
+            part.add(n, start, start + 1)
+            n2 = S.Note("CDEFGAB"[i], 4, id="m" + name, voice=1, staff=1)
+            part.add(n2, start + 1, end)
+            n.tie_next, n2.tie_prev = n2, n
+            part.add(S.GraceNote("grace", "CDEFGAB"[i], 5, id="g" + name, voice=1, staff=1), start, start)
+        else:
+            part.add(n, start, end)
         notes[name] = n
         pos = end
     # a tie over the first section boundary and a slur over the last one
@@ -96,7 +106,7 @@ def fingerprint(part, with_segments=None):
     return out
 
 
-def check_unfolded(new, orig_part, bounds, visits, update_ids, label):
+def check_unfolded(new, orig_part, bounds, visits, update_ids, label, template=None):
     """new part must be the concatenation of the sections in `visits`."""
     import partitura.score as S
 
@@ -113,11 +123,30 @@ def check_unfolded(new, orig_part, bounds, visits, update_ids, label):
           new.last_point.t, total)
     for cls in (S.Repeat, S.Ending, S.DaCapo, S.DalSegno, S.ToCoda, S.Segment):
         check(len(list(new.iter_all(cls))) == 0, label + ": %s left in the unfolded part" % cls.__name__)
-    got = sorted(new.iter_all(S.Note), key=lambda n: n.start.t)
+    inner = TEMPLATES[template].get("inner", "") if template else ""
+    allnotes = list(new.iter_all(S.Note, include_subclasses=True))
+    got = sorted([n for n in allnotes if n.id.startswith("n")], key=lambda n: n.start.t)
     check(len(got) == len(expected), label + ": number of notes", len(got), len(expected))
+    if inner:
+        n_inner = sum(1 for v in visits if v in inner)
+        seconds = sorted([n for n in allnotes if n.id.startswith("m")], key=lambda n: n.start.t)
+        graces = sorted([n for n in allnotes if n.id.startswith("g")], key=lambda n: n.start.t)
+        check(len(seconds) == n_inner and len(graces) == n_inner, label + ": tied second notes / grace notes per visit",
+              len(seconds), len(graces), n_inner)
+        ids = [n.id for n in allnotes]
+        check(len(set(ids)) == len(ids) or not update_ids, label + ": duplicate note ids after unfolding", sorted(ids))
+        firsts = [n for n in got if n.id[1] in inner]
+        for a, b in zip(firsts, seconds):
+            check(a.tie_next is b and b.tie_prev is a, label + ": tie inside a repeated section does not stay inside its visit",
+                  a.id, getattr(a.tie_next, "id", None), a.end.t, getattr(getattr(a.tie_next, "start", None), "t", None))
+            check(b.start.t == a.end.t, label + ": tied notes of one visit are not adjacent", a.end.t, b.start.t)
+        if update_ids:
+            for k, g in enumerate(graces):
+                check(g.id.endswith("-%d" % (k + 1)), label + ": grace note id not suffixed with the visit number", g.id)
     times_visited = {n: sum(1 for v in visits if v == n) for n in set(visits)}
     for n, (name, k, s, e) in zip(got, expected):
-        check(n.start.t == s and n.end.t == e, label + ": note not at the shifted position", name, k, n.start.t, s)
+        e_exp = (s + 1) if name in inner else e
+        check(n.start.t == s and n.end.t == e_exp, label + ": note not at the shifted position", name, k, n.start.t, s)
         check(n.step == "CDEFGAB"["ABCDEFG".index(name)] and n.voice == 1 and n.staff == 1,
               label + ": pitch/voice/staff changed", name)
         if update_ids:
@@ -127,7 +156,7 @@ def check_unfolded(new, orig_part, bounds, visits, update_ids, label):
         check(any(n.start is p for p in new._points), label + ": note start is not a point of the new part")
         for ref in (n.tie_next, n.tie_prev):
             if ref is not None:
-                check(any(ref is g for g in got), label + ": tie reference leaves the copy", name)
+                check(any(ref is g for g in allnotes), label + ": tie reference leaves the copy", name)
     pts = list(new._points)
     for i, p in enumerate(pts):
         check(p.prev is (pts[i - 1] if i else None) and p.next is (pts[i + 1] if i + 1 < len(pts) else None),
@@ -154,15 +183,19 @@ def make(template, update_ids=True):
             require(L[i] == 3 + i)  # two symbolic lengths, the others pinned (fewer orderings of the shifted positions)
         # recorded finding: an object that starts in a visited section and ends beyond it keeps its full extent
         exclude_known("KF-C09-crossing-object-extent", template == "dacapo_fine_slur")
+        if t.get("inner"):
+            for i, nm in enumerate(t["sections"]):
+                if nm in t["inner"]:
+                    require(L[i] >= 2)
         part, bounds, notes = build(template, L)
         before = fingerprint(part)
         mx = must_not_raise(S.unfold_part_maximal, part, update_ids=update_ids, _what="unfold_part_maximal")
-        tot = check_unfolded(mx, part, bounds, t["maximal"], update_ids, "maximal")
+        tot = check_unfolded(mx, part, bounds, t["maximal"], update_ids, "maximal", template)
         check(fingerprint(part) == before, "maximal: the original part was modified", before, fingerprint(part))
         obs = [int(tot)]
         if t["minimal"] is not None:
             mn = must_not_raise(S.unfold_part_minimal, part, _what="unfold_part_minimal")
-            obs.append(int(check_unfolded(mn, part, bounds, t["minimal"], False, "minimal")))
+            obs.append(int(check_unfolded(mn, part, bounds, t["minimal"], False, "minimal", template)))
             check(fingerprint(part) == before, "minimal: the original part was modified")
         if t["n_variants"] is not None:
             vs = list(must_not_raise(lambda: list(S.iter_unfolded_parts(part, update_ids=update_ids)), _what="iter_unfolded_parts"))
@@ -181,7 +214,7 @@ def make(template, update_ids=True):
 
 def _inst(tier):
     out = [{"template": "plain"}, {"template": "repeat_mid"}, {"template": "volta"}, {"template": "repeat_start", "update_ids": False},
-           {"template": "dacapo_fine"}]
+           {"template": "dacapo_fine"}, {"template": "nested"}, {"template": "repeat_mid_inner"}]
     if tier != "quick":
         out += [{"template": "two_repeats"}, {"template": "plain_tie"}, {"template": "repeat_mid_tie"}, {"template": "repeat_mid", "update_ids": False}, {"template": "volta", "update_ids": False}]
     return out
@@ -194,7 +227,7 @@ HARNESSES = [
                  "ScoreVariant.add_segment", "ScoreVariant.create_variant_part", "score.new_part_from_path",
                  "score.unfold_part_maximal", "score.unfold_part_minimal", "score.iter_unfolded_parts",
                  "music.update_note_ids_after_unfolding", "ReplaceRefMixin.replace_refs"],
-      bounds="templates: no repeat, simple repeat at the start / in the middle, two independent repeats, first/second "
+      bounds="templates: no repeat, simple repeat at the start / in the middle, nested repeats, a repeated section holding a tie and a grace note, two independent repeats, first/second "
              "ending, da capo al fine; 2-4 sections with symbolic lengths 1..10^4 divisions; one note per section, a tie "
              "over the first and a slur over the last section boundary; update_ids on/off",
       outside="dal segno / coda templates, nested repeats, three endings, division or signature changes inside sections"),
